@@ -9,7 +9,7 @@ CLAIMED = {
             "Checked build (debug-assertions + overflow-checks). Hostile region rectangles are out of scope of C01 as stated. Known genuine defects are listed in known_findings.json by panic site + normalised message."),
     "C09": ("exploration", "seeded simulation of byte delivery (chunk schedules through the feed protocol, short reads through the Read seam) against a one-buffer reference decode",
             "Equality of every observable C09 names between a one-buffer decode and 3-6 seeded chunkings + 2 short-read runs per generated stream; samples the space of streams and chunkings, proves nothing beyond them.",
-            "jxlgen (stub writer, Modular only) produces the valid streams; one real fixture; the decoder's own one-buffer decode is the reference (self-consistency oracle)."),
+            "jxlgen (stub writer: Modular with prefix or ANS coding, enum/ICC colour encodings, patches, splines, VarDCT frames) produces the valid streams; one real fixture; the decoder's own one-buffer decode is the reference (self-consistency oracle). Half of the cases also drive the image-crate adapter (JxlDecoder) through the same short-read scripts."),
     "C10": ("exploration", "seeded simulation of byte delivery over generated container layouts with a ground-truth box model (fault kinds: chunk boundaries inside headers/index words/brob types, ill-formed layouts)",
             "Parser events (codestream bytes, aux box type/payload) compared with the generator's box table under 4-8 chunkings per layout, incl. always one cut inside every header; ill-formed layouts must be rejected under every chunking; image-level Exif/XML/render equality for real codestreams.",
             "The generator's box table is the ground truth. Brotli payloads are stored meta-blocks only."),
@@ -20,25 +20,25 @@ CLAIMED = {
 
 CLAIMED["C13"] = ("fault_enumeration", "allocation-fault injection (budget sweep and fail-from-k via hook H1) over seeded call histories with a budget-ledger reference model checked after every operation",
     "Budget ledger model (initial, +expand, -shrink) checked against the tracker after every operation of seeded histories under 4-10 allocation-fault positions per stream; conservation after drop-all checked with the hook counter and with the public API alone. Fault positions are sampled per-mille of the fault-free allocation count / peak.",
-    "Hook H1 counters are trusted (16 lines, add-only). Pool none, single caller.")
+    "Hook H1 counters are trusted (16 lines, add-only). Pool none, single caller. Also checked: section bytes held <= tracked total after every op; a real-thread tracker stress leg (not replayable, stated); an image-crate adapter leg where a history of set_limits/read_rect calls must equal the same history without the rejected set_limits calls.")
 CLAIMED["C07"] = ("exploration", "seeded task schedules through a simulated thread pool (hook H2) plus real rayon pools and concurrent callers, against a no-pool reference",
     "Bit-identical samples and identical Ok/Err verdicts across 6-32 seeded task-granular schedules per stream through the simulated pool (incl. deferred background renders), repetition, real pools of several sizes and concurrent callers. Sampling of schedules, task-granular.",
-    "The simulated pool executes tasks atomically on one OS thread; overlapping-memory races are outside it (C02).")
+    "The simulated pool executes tasks atomically on one OS thread; overlapping-memory races are outside it (C02). Real-pool legs are not replayable (their oracle is); known finding F23 (timing-dependent deadlock of streams with patches on a real pool) is reported as KNOWN-FINDING and tolerated by the determinism self-test.")
 CLAIMED["C08"] = ("fault_enumeration", "fail-the-k-th-tracked-allocation (hook H1) for sampled / every k of a render, followed by seeded post-failure call histories, all under the shuttle scheduler so that a wedged call is a detected deadlock",
     "For each program the fault position k ranges over 24 sampled values (quick) or every k < N (thorough); after the failure and after lifting the fault a seeded history of calls must all return and every Ok must equal a never-failed decode. Programs are sampled.",
-    "Hook H1 (fault switch) and H3a (shuttle-owned Mutex/Condvar) are trusted. Single caller.")
+    "Hook H1 (fault switch) and H3a (shuttle-owned Mutex/Condvar) are trusted. Single caller; the pool, when present, is either one shuttle thread per task or the rayon-like BoundedPool (1-2 workers, one queue, work stealing). Known finding F23 (patch stage blocks inside a pool task) is reported as KNOWN-FINDING.")
 CLAIMED["C20"] = ("exploration", "2-3 caller threads on a shared image under shuttle's seeded random and PCT schedulers (hook H3), with and without an injected fault, against a sequential reference",
     "Seeded schedule search (random + PCT) over the synchronisation points of the render-handle protocol with 2-3 callers and optional background tasks; deadlock, lost wake-up (spurious error), disagreement with the sequential result and concurrent execution of one frame are violations. Sampling, not enumeration.",
-    "Only shuttle-owned primitives are scheduling points. Known finding F5 (reset() of an evicted base under a concurrent caller) is reported as KNOWN-FINDING.")
+    "Only shuttle-owned primitives are scheduling points; background tasks run on one shuttle thread each or on the rayon-like BoundedPool (1-3 workers). Known findings F5/F5b (reset() of an evicted base under a concurrent caller) and F23 (patch stage blocks inside a pool task) are reported as KNOWN-FINDING.")
 CLAIMED["C06"] = ("exploration", "seeded histories of region-of-interest requests and renders on one long-lived decoder (state carried across requests) against a fresh full render",
     "Histories of 4-24 region requests / renders on one image per generated stream; each render compared with the rectangle of a fresh decoder's full render within 1e-6. The history dimension (caches and render handles surviving across requests) is what the simulation adds; inputs and rectangles are sampled.",
-    "Self-consistency oracle. Modular only. Known findings F15/F14b are reported as KNOWN-FINDING.")
+    "Self-consistency oracle (the decoder's own full render). Known findings F14b/F15/F16/F19/F24/F26 are reported as KNOWN-FINDING; the program-level shrinker attributes a failure to the features that are needed for it.")
 CLAIMED["C05"] = ("exploration", "seeded histories of keyframe requests over generated multi-frame programs, checked against an executable reference compositor fed with separately decoded frames",
     "A small executable model (4 reference slots + the blend formulas) is compared with every keyframe the library renders, over seeded multi-frame programs and seeded request histories (order, repetition). The history dimension (slots are stateful: blend() resets evicted handles, cached blends are reused) is what the simulation adds; inputs are sampled.",
     "Frames' own samples come from the library's decode of standalone streams. Known finding F14c is reported as KNOWN-FINDING.")
-CLAIMED["C02"] = ("exploration", "simulated runs (op sequences x faults x configuration knobs) executed under two detectors: an AddressSanitizer build on the real SIMD paths, and Miri's seeded preemptive scheduler with data-race detection on tiny programs",
-    "The simulator supplies the executions (C01's scenarios plus tiny valid programs for Miri), a detector is the oracle: any AddressSanitizer report or Miri error (out-of-bounds, use-after-free, uninitialised read, data race) is a violation attributed to the seed in flight and confirmed in a fresh process. Assurance: no report on the runs explored, nothing more.",
-    "Miri without the experimental aliasing model; Miri sees only the generic code paths; ASan does not see uninitialised reads; aarch64/wasm kernels not covered.")
+CLAIMED["C02"] = ("exploration", "simulated runs (op sequences x faults x configuration knobs, plus SIMD-tail width sweeps) executed under three detectors: an AddressSanitizer build and a MemorySanitizer build (instrumented std) on the real SIMD paths, and Miri's seeded preemptive scheduler with data-race detection on tiny programs",
+    "The simulator supplies the executions (C01's scenarios plus tiny valid programs for Miri), a detector is the oracle: any AddressSanitizer / MemorySanitizer report or Miri error (out-of-bounds, use-after-free, uninitialised read, data race) is a violation attributed to the seed in flight and confirmed in a fresh process. Assurance: no report on the runs explored, nothing more.",
+    "Miri without the experimental aliasing model and without VarDCT; Miri sees only the generic code paths; uninitialised reads on the SIMD paths are the MemorySanitizer leg's (every rendered sample buffer is passed to __msan_check_mem_is_initialized); aarch64/wasm kernels not covered.")
 NOT_APPLICABLE = {}
 
 def main():
